@@ -9,7 +9,7 @@ extra = sys.argv[4:]
 dest = "/verif/seeded/%s" % name
 os.makedirs(dest, exist_ok=True)
 for f in ("patch.diff", "demo.py", "notes.txt"):
-    if os.path.exists(os.path.join(src, f)):
+    if os.path.exists(os.path.join(src, f)) and os.path.abspath(src) != os.path.abspath(dest):
         shutil.copy(os.path.join(src, f), os.path.join(dest, f))
 wt = "/tmp/evalwt_%s" % name
 subprocess.run(["git", "-C", "/repo", "worktree", "remove", "--force", wt], capture_output=True)
